@@ -669,7 +669,7 @@ class C07(Prop):
             'an interface must come from one maximal-version description. shipped-rendered: every shipped message once through the full '
             'pipeline (name=value, value:label, null <iface> tokens) plus unknown interfaces (undecorated, not dropped). synthetic-versions: '
             'generated sets of 1-4 XML files with overlapping interface names at distinct versions, loaded in every permutation. non-trivial = '
-            'interface with an enum-typed or object argument / set with an interface at >= 2 versions; distinct by SHA-1 of the case. installed-elsewhere: the working tree copied to scratch locations (below a hidden directory, with a blank, with dots) must show a described log exactly like the tree in place.')
+            'interface with an enum-typed or object argument / set with an interface at >= 2 versions; distinct by SHA-1 of the case. installed-elsewhere: the working tree copied to scratch locations (below a hidden directory, with a blank, with dots) must show a described log exactly like the tree in place. in-histories: generated histories (messages newer than the descriptions or longer than described next to ordinary ones, repeats, nil objects and nil strings, enum arguments, objects never seen created and their delete_id): every shown line carries exactly the names, nil types and labels the descriptions give that message, whatever was decoded before.')
     assumptions = ['protoxml.py (own ElementTree reader and literal evaluator) is the oracle',
                    'ties at equal maximal version: any one description is accepted, consistently per interface',
                    'arguments that carry no enum attribute in the XML (hand-tagged by the tool) are not judged']
